@@ -8,6 +8,7 @@ CONSTANTS
   WithInv = FALSE
   Dyn = TRUE
   WithDC = FALSE
+  WithWinch = FALSE
 VIEW View
 INVARIANT PlacementsExact
 INVARIANT NoDuplicates
